@@ -227,6 +227,10 @@ class ExprGen:
         r = self.r
         names = [] if self.closed else self.env.by_ty.get(ty, [])
         if names and r.random() < 0.6:
+            # references to virtual fields are inlined by the model's input: keep chains short
+            plain = [n for n in names if not n.startswith("v")]
+            if plain and r.random() < 0.8:
+                return ("ref", r.choice(plain), ty)
             return ("ref", r.choice(names), ty)
         if ty == "int":
             return ("num", r.choice([0, 1, 2, 3, 4, 5, 7, 8, 9, 10, 100]))
